@@ -43,6 +43,7 @@ func (e c12Elem) String() string {
 type c12Case struct {
 	Elems   []c12Elem `json:"history"`
 	Passive bool      `json:"passive"`
+	Legacy  bool      `json:"legacy_timers,omitempty"`
 }
 
 // refDamp is the reference damping automaton of the property text.
@@ -233,7 +234,7 @@ func c12Run(cs c12Case, ch vrt.Chooser, trace bool) (*world.World, *vrt.Exec, *c
 	for _, el := range cs.Elems {
 		total += 320*time.Second + time.Duration(el.Timing)*time.Second
 	}
-	e := vrt.Run(vrt.Config{Horizon: int64(total + 400*time.Second), Trace: trace, Chooser: ch, MaxSteps: 600000}, func() {
+	e := vrt.Run(vrt.Config{Horizon: int64(total + 400*time.Second), Trace: trace, Chooser: ch, MaxSteps: 600000, LegacyTimers: cs.Legacy}, func() {
 		w = world.New(libIP)
 		w.NewServer(libIP)
 		pl := &world.Plugin{W: w, Peer: "P1", Marker: true, NoYield: ch == nil}
@@ -585,12 +586,20 @@ func c12Check(c *harness.Ctx) {
 		if c.Expired() {
 			return false
 		}
-		b, _ := json.Marshal(cs)
-		c.Eval(b, true)
-		if idx%5003 == 1 {
-			c.Sample(cs)
+		// timer-channel semantics alternate over the cases (thorough: both for every case)
+		cs.Legacy = (idx/16)%2 == 1
+		for n := 0; n < 2; n++ {
+			b, _ := json.Marshal(cs)
+			c.Eval(b, true)
+			if idx%5003 == 1 {
+				c.Sample(cs)
+			}
+			c12Eval(c, cs)
+			if !c.Thorough() {
+				break
+			}
+			cs.Legacy = !cs.Legacy
 		}
-		c12Eval(c, cs)
 		return true
 	}
 	// (1) every error kind alone and after one earlier error, with every timing, active and passive
